@@ -643,6 +643,7 @@ func main() {
 		{"kafkaSrc", []string{"KafkaSrc.lean"}, genKafkaSrc},
 		{"rabbitSrc", []string{"RabbitSrc.lean"}, genRabbitSrc},
 		{"kinesisLoopSrc", []string{"KinesisLoopSrc.lean"}, genKinesisLoopSrc},
+		{"workerLoops", []string{"WorkerLoops.lean", "S3WorkerSrc.lean"}, genWorkerLoops},
 	}
 	status := map[string]interface{}{}
 	failed := 0
